@@ -433,6 +433,100 @@ def spoe_stage(ctx):
 # ---------------------------------------------------------------------------------------------------------------------
 
 
+# ---------------------------------------------------------------------------------------------------------------------
+# BEGIN stage "reload" (harness/cmd/c18h reload; specs ReloadLinP / ReloadLinTrace): transactions through the real
+# routing.Handler WHILE the flows are reloaded through the real admin handlers (/load_flows, /apply_flows, /configuration):
+# a reload is one atomic step placed by TLC inside the reload call, a failed reload changes nothing, every reply must be the
+# verdict of the configuration in force at some moment of its transaction.  Histories: reloads of UNCHANGED flows (every reply
+# is the one verdict), alternating versions (403 / 418 on one URL, a flow that exists only in some versions on another),
+# valid and invalid reloads.  Witnesses carry "level": "spoe-handler-reload".  With replay_obj: re-execute a stored witness.
+def reload_stage(ctx, replay_obj=None):
+    import random, time
+    t0 = time.time()
+    T = ctx.thorough
+    binary = ctx.build_harness("c18h")
+
+    def V(a, x, valid=True):
+        return {"a": a, "x": x, "valid": valid}
+
+    def record(script, tag):
+        d = ctx.sub("run-" + tag)
+        sp = os.path.join(d, "script.json")
+        json.dump(script, open(sp, "w"))
+        for attempt in range(3):
+            p = ctx.run_harness(binary, ["reload", sp, d], timeout=600, check=False)
+            if p.returncode != 4:          # 4 = port clash
+                break
+        if p.returncode != 0:
+            raise Broken("harness c18h reload failed rc=%d: %s" % (p.returncode, p.stderr[-2000:]))
+        return read_ndjson(os.path.join(d, "trace-000.ndjson"))
+
+    def judge_reload(trace, tag):
+        return validate_history_trace(ctx, SPEC, "ReloadLinTrace", trace, tag=tag, deque=True, timeout=600, max_rounds=4)
+
+    if replay_obj is not None:
+        for attempt in range(10):
+            tr = record(replay_obj["script"], "replay")
+            acc, rej, _ = judge_reload(tr, "replay")
+            if rej:
+                for e in rej[0]["hist"][max(0, rej[0]["at"] - 12): rej[0]["at"] + 2]:
+                    print(json.dumps(e))
+                return 1
+        return 0
+
+    rng = random.Random(ctx.seed * 104729 + 8)
+    hists = []
+    for k in range(1 if not T else 6):      # reloads of unchanged flows, through every route
+        v = V(rng.choice([403, 418]), rng.choice([0, 451]))
+        hists.append({"v0": v, "g": 4, "cap": 200, "hooks": True,
+                      "reloads": [{"to": v, "route": rng.choice(["load_flows", "load_flows", "apply_flows", "configuration"])}
+                                  for _ in range(8 if not T else 25)]})
+    for k in range(2 if not T else 10):     # alternating versions, valid and invalid ones
+        cur = V(403, rng.choice([0, 451]))
+        h = {"v0": cur, "g": rng.choice([2, 4, 6]), "cap": 200, "hooks": True, "reloads": []}
+        for i in range(10 if not T else 30):
+            to = V(418 if cur["a"] == 403 or rng.random() < 0.3 else 403, rng.choice([0, 451, 451]), valid=rng.random() > 0.25)
+            if rng.random() < 0.15:
+                to = V(cur["a"], cur["x"], valid=to["valid"])
+            h["reloads"].append({"to": to, "route": rng.choice(["load_flows", "apply_flows", "configuration"])})
+            if to["valid"]:
+                cur = to
+        hists.append(h)
+    script = {"histories": hists}
+    trace = record(script, "reload")
+    acc, rejected, _ = judge_reload(trace, "reload")
+    ctx.cov["traces_validated_against_impl"] += acc
+    ntx = sum(e.get("n", 0) for e in trace if e.get("op") == "req")
+    nrl = sum(1 for e in trace if e.get("op") == "reload")
+    during = sum(1 for h in split_histories(trace)[1] for e in h if e.get("op") == "req" and e.get("at"))
+    ctx.cov["evaluations"] += ntx + nrl
+    if ntx < 200 * len(hists) or nrl == 0:
+        raise Broken("reload stage: only %d transactions around %d reloads were recorded" % (ntx, nrl))
+    for rej in rejected[:1]:
+        h, at = rej["hist"], rej["at"]
+        # schedule-dependent: the same script is executed again until the specification rejects again
+        again = None
+        for attempt in range(4):
+            t2 = record(script, "reload-repro")
+            a2, r2, _ = judge_reload(t2, "reload-repro")
+            if r2:
+                again = r2[0]
+                break
+        r = again or rej
+        h, at = r["hist"], r["at"]
+        e = h[min(at, len(h) - 1)]
+        culprit = next((x for x in h if x.get("ev") == "begin" and x.get("id") == e.get("id")), e)
+        ctx.violation({"class": "reply-of-no-configuration-in-force", "level": "spoe-handler-reload", "event": culprit,
+                       "reproduced": again is not None},
+                      {"stage": "reload", "harness": "c18h", "script": script, "trace": [r["config"]] + h, "rejected_at": at,
+                       "schedule_dependent": True})
+    ctx.notes.append("reload stage: %d transactions through routing.Handler around %d reload calls in %d histories (%d at the switch "
+                     "points hdm.initialized / hdm.published), %.0f s" % (ntx, nrl, len(hists), during, time.time() - t0))
+    ctx.log("reload stage done in %.1fs" % (time.time() - t0))
+# END stage "reload"
+# ---------------------------------------------------------------------------------------------------------------------
+
+
 def run(ctx):
     T = ctx.thorough
     binary = ctx.build_harness("c18")
@@ -475,6 +569,7 @@ def run(ctx):
     ctx.sample({"kind": "recorded-concurrent-history", "events": split_histories(traces[0])[1][0][:16]})
     judge(ctx, binary, scripts, traces, "rand")
     spoe_stage(ctx)        # (2b) the same through the real SPOE message handler (harness/cmd/c18h)
+    reload_stage(ctx)      # (2c) transactions while the flows are being reloaded (harness/cmd/c18h reload, ReloadLinTrace)
 
     # (3) directed schedules from the interleaving model, forced on the real Limiter through the yield point
     #     limiter.after_inc (between quota.Inc and quota.Allowed) and judged by the same linearizability search
